@@ -124,11 +124,25 @@ class C12(Prop):
                 for b in ("b0", "b1"):
                     t_store.ds.create_bucket(b, "t", "c", "h", created=us_to_dt(T0), data={"k": [1]})
                     t_store.ds[b].insert([mk_event(e) for e in case["events"][b]])
-                t_store.ds["b0"].replace_last(mk_event([None, max(e[1] for e in case["events"]["b0"]) + 7 * SEC, 1000, DATAS[0]]))
+                self._afterwards(t_store, case)
                 out["twin"][1] = storelib.dump(t_store)
             finally:
                 t_store.close()
         return out
+
+    @staticmethod
+    def _afterwards(store, case):
+        """what the client does after the queries, the same on the store that served them and on its twin: re-time the
+        oldest event so that it ties with the newest one, then rewrite "the last" event"""
+        top = max(e[1] for e in case["events"]["b0"])
+        b = store.ds["b0"]
+        # ids are assigned in insertion order by all backends: the k-th inserted event of a fresh bucket has a known id
+        first_id = {"memory": 0}.get(store.backend, 1)
+        order = sorted(range(len(case["events"]["b0"])), key=lambda i: case["events"]["b0"][i][1])
+        lo = order[0]
+        if case["events"]["b0"][lo][1] < top:
+            b.replace(first_id + lo, mk_event([None, top, 1000, DATAS[1]]))
+        b.replace_last(mk_event([None, top + 7 * SEC, 1000, DATAS[0]]))
 
     def _impl(self, case):
         from aw_query import query2
@@ -163,8 +177,7 @@ class C12(Prop):
             # here and on a twin store that was filled the same way and never read
             twin = None
             if case["events"]["b0"]:
-                marker = mk_event([None, max(e[1] for e in case["events"]["b0"]) + 7 * SEC, 1000, DATAS[0]])
-                ds["b0"].replace_last(marker)
+                self._afterwards(store, case)
                 twin = [storelib.dump(store), None]  # the twin runs when this store is closed (peewee: one database per process)
             # the same query text and window again after the bucket has changed: it must show the bucket as it is now
             rerun = None
